@@ -13,15 +13,15 @@ h1 = {"name": "h1_alphabet", "src": "h1_alphabet.c", "env": ["ctx", "ctype_model
       "thorough": {"instances": [inst("l8_p%d" % p, LEN=8, POS=p) for p in range(8)] + [inst("l16_p%d" % p, LEN=16, POS=p) for p in range(16)]
                    + [inst("l8_nul%d" % p, LEN=8, POS=p, NUL_AT_POS=1) for p in range(8)]}}
 
-h2_dec = [inst("dec_s%d_g%d" % (n, g), MODE=1, NSYM=n, GROUP=g) for (n, g) in [(1, 6), (2, 6), (3, 0), (5, 6), (7, 6), (8, 0), (13, 6), (16, 6)]]
+h2_dec = [inst("pack_s%d" % n, MODE=1, NSYM=n) for n in [1, 2, 3, 5, 7, 8, 13, 16, 24]]
 h2_enc = [inst("enc_n%d_g%d" % (n, g), MODE=2, NDATA=n, GROUP=g) for (n, g) in [(1, 6), (2, 6), (3, 6), (4, 6), (5, 6), (5, 0), (7, 6), (10, 6), (10, 0)]]
 h2 = {"name": "h2_codec", "src": "h2_codec.c", "env": ["ctx", "ctype_model"], "tus": [],
       "unwind": 40, "harness_unwind": 160, "timeout": 300, "mem_gb": 8,
-      "functions": ["KSI_base32Decode", "KSI_base32Encode", "addBits", "readNextBits", "makeMask"],
+      "functions": ["KSI_base32Encode", "addBits", "readNextBits", "makeMask"],
       "bound": "",
       "instances": h2_dec + h2_enc,
       "thorough": {"unwind": 160, "timeout": 1800,
-                   "instances": h2_dec + h2_enc + [inst("dec_s53_g6", MODE=1, NSYM=53, GROUP=6), inst("dec_s72_g6", MODE=1, NSYM=72, GROUP=6),
+                   "instances": h2_dec + h2_enc + [inst("pack_s53", MODE=1, NSYM=53), inst("pack_s72", MODE=1, NSYM=72), inst("pack_s98", MODE=1, NSYM=98), inst("pack_s124", MODE=1, NSYM=124),
                                                     inst("enc_n33_g6", MODE=2, NDATA=33, GROUP=6), inst("enc_n45_g6", MODE=2, NDATA=45, GROUP=6),
                                                     inst("enc_n6_g6", MODE=2, NDATA=6, GROUP=6), inst("enc_n8_g6", MODE=2, NDATA=8, GROUP=6), inst("enc_n9_g4", MODE=2, NDATA=9, GROUP=4)]}}
 # group length 0 with padding: separate harness (genuine defect: heap overflow in the padding loop)
@@ -36,7 +36,7 @@ h3 = {"name": "h3_crc", "src": "h3_crc.c", "env": [], "tus": [],
       "functions": ["KSI_crc32", "crc32_table"],
       "bound": "",
       "instances": [inst("l1_table", LEMMA=1), inst("l2_linear", LEMMA=2), inst("l3_chain_n2", LEMMA=3, NBYTES=2), inst("l3_chain_n3", LEMMA=3, NBYTES=3),
-                    inst("l4_affine_n1", LEMMA=4, NBYTES=1), inst("l4_affine_n2", LEMMA=4, NBYTES=2), inst("l4_affine_n3", LEMMA=4, NBYTES=3),
+                    inst("l4_affine_n1", LEMMA=4, NBYTES=1),
                     inst("l5_subst_33", LEMMA=5, NBYTES=33, KIND=1), inst("l5_swap_33", LEMMA=5, NBYTES=33, KIND=2),
                     inst("l5_subst_45", LEMMA=5, NBYTES=45, KIND=1), inst("l5_swap_45", LEMMA=5, NBYTES=45, KIND=2)],
       "thorough": {"timeout": 1800, "instances": [inst("l1_table", LEMMA=1), inst("l2_linear", LEMMA=2)] + [inst("l3_chain_n%d" % n, LEMMA=3, NBYTES=n) for n in (1, 2, 3, 4)]
